@@ -817,12 +817,17 @@ pub fn plan_c06(thorough: bool) -> Plan {
     // read of absent keys arise from the universe containing absent keys
     let acts: Vec<Value> = vec![json!(["r"]), json!(["w", 1]), json!(["rw", 2]), json!(["d"]), json!(["rd"])];
     for cc in if thorough { vec![1usize, 2, 3] } else { vec![1usize, 3] } {
-        for warm in if thorough { vec![false, true] } else { vec![false] } {
+        for warm in [false, true] {
             let mut cfg = Cfg::default();
             cfg.cc = cc;
             cfg.warm_up = warm;
             cfg.buckets = 256;
             for (seed, uni) in [("empty", vec!["U1"]), ("leaf", vec!["seed:0,2,5", "U4"]), ("cl12x20", vec!["CL12:17-23"]), ("bulk", vec!["seed:0,700,1499", "U4"])] {
+                // quick: warmed-up sessions (the update reuses the seeks the warm-up worker has
+                // finished) for the two small prior states only
+                if warm && !thorough && (seed == "leaf" || seed == "bulk") {
+                    continue;
+                }
                 let k = match seed {
                     "empty" => 6,
                     "cl12x20" => 6,
@@ -893,7 +898,7 @@ pub fn plan_c06(thorough: bool) -> Plan {
     sort_by_bound(&mut cases);
     let mut p = Plan::new(
         cases,
-        "histx: for prior states {3 colliding keys, leaf seed, 20-key merkle cluster, 1500 random keys} × commit workers {1,2,3} × warm-up {off,on}: every sorted batch with ≤B non-trivial per-key actions {read, write, read-then-write, delete, read-then-delete} over a 6–7 key universe of present and absent keys (several keys on one terminal, keys in different root-child ranges); plus, with 3 and 5 (thorough 6, 7) workers, every batch of ≤3 actions over 10 keys placed on both sides of the workers' range boundaries in a two-leaf trie (one terminal spans several workers' ranges); plus the leaf / cluster batches as a witnessed session layered on an uncommitted overlay that rewrote and deleted universe keys; plus every batch of ≤3 {read, write, delete} over ten present keys that share one depth-1 page at mixed depths (DEEP); the session runs with witnessing on; oracle: every witnessed path verifies against the previous root (= reference root), every witnessed read attests exactly the value hash the session observed and is confirmed by its path, every written key is covered with the right value hash and in scope of its path, and proof::verify_update over the witnessed writes = FinishedSession::root = reference root of the updated set.",
+        "histx: for prior states {3 colliding keys, leaf seed, 20-key merkle cluster, 1500 random keys} × commit workers {1,2,3} × warm-up {off, on: every key of the batch / every second key warmed up, with a 1 ms settle so that the warm-up worker has finished its seeks and the update re-uses them}: every sorted batch with ≤B non-trivial per-key actions {read, write, read-then-write, delete, read-then-delete} over a 6–7 key universe of present and absent keys (several keys on one terminal, keys in different root-child ranges); plus, with 3 and 5 (thorough 6, 7) workers, every batch of ≤3 actions over 10 keys placed on both sides of the workers' range boundaries in a two-leaf trie (one terminal spans several workers' ranges); plus the leaf / cluster batches as a witnessed session layered on an uncommitted overlay that rewrote and deleted universe keys; plus every batch of ≤3 {read, write, delete} over ten present keys that share one depth-1 page at mixed depths (DEEP); the session runs with witnessing on; oracle: every witnessed path verifies against the previous root (= reference root), every witnessed read attests exactly the value hash the session observed and is confirmed by its path, every written key is covered with the right value hash and in scope of its path, and proof::verify_update over the witnessed writes = FinishedSession::root = reference root of the updated set.",
     );
     p.budget_s = if thorough { 1700 } else { 55 };
     p
